@@ -499,11 +499,16 @@ func (p *printer) writeCommentPrefix(pos, next token.Position, prev *ast.Comment
 	}
 }
 
-// Returns true if s contains only white space
-// (only tabs and blanks can appear in the printer's context).
+// isWhite reports whether b is an (ASCII) white space byte. Comment text may
+// contain any other control character; those are text, not indentation.
+func isWhite(b byte) bool {
+	return b == ' ' || b == '\t' || b == '\v' || b == '\f' || b == '\r' || b == '\n'
+}
+
+// Returns true if s contains only white space.
 func isBlank(s string) bool {
 	for i := 0; i < len(s); i++ {
-		if s[i] > ' ' {
+		if !isWhite(s[i]) {
 			return false
 		}
 	}
@@ -513,7 +518,7 @@ func isBlank(s string) bool {
 // commonPrefix returns the common prefix of a and b.
 func commonPrefix(a, b string) string {
 	i := 0
-	for i < len(a) && i < len(b) && a[i] == b[i] && (a[i] <= ' ' || a[i] == '*') {
+	for i < len(a) && i < len(b) && a[i] == b[i] && (isWhite(a[i]) || a[i] == '*') {
 		i++
 	}
 	return a[0:i]
@@ -614,7 +619,7 @@ func stripCommonPrefix(lines []string) {
 			// comment text on the first line
 			suffix := make([]byte, len(first))
 			n := 2 // start after opening /*
-			for n < len(first) && first[n] <= ' ' {
+			for n < len(first) && isWhite(first[n]) {
 				suffix[n] = first[n]
 				n++
 			}
